@@ -197,7 +197,7 @@ func vC19RandPrefix(r *rand.Rand) netip.Prefix {
 	return netip.PrefixFrom(a, bits) // host bits kept
 }
 
-var vC19Malformed = []string{"", "10.0.0.0", "10.0.0.0/33", "::/129", "10.0.0.0/-1", "10.0.0.256/8", "fe80::1%eth0/64", "1.2.3.4/ 8", "/8", "2001:db8::/x"}
+var vC19Malformed = []string{"", " ", "\t", "  ", " 10.0.0.0/8", "10.0.0.0/8 ", "10.0.0.0", "10.0.0.0/33", "::/129", "10.0.0.0/-1", "10.0.0.256/8", "fe80::1%eth0/64", "1.2.3.4/ 8", "/8", "2001:db8::/x", "", " "}
 
 type vC19BuildArgs struct {
 	enabled        bool
@@ -255,7 +255,7 @@ func vC19GenBuildArgs(r *rand.Rand) vC19BuildArgs {
 		n = 0
 	}
 	for i := 0; i < n; i++ {
-		if r.Intn(12) == 0 {
+		if r.Intn(7) == 0 {
 			b.nets = append(b.nets, vC19Malformed[r.Intn(len(vC19Malformed))])
 		} else {
 			b.nets = append(b.nets, vC19RandPrefix(r).String())
